@@ -6,7 +6,7 @@ lines, with the parent's start line (Q1, Q2); the nested call is the same functi
 lines, hence yields B, provided global parser state is the same (C11) -- observed directly on
 skeletons (Q5) and end-to-end on tiny documents (Q4).
 """
-from vfy.lemma import lemma, rxlemma, P
+from vfy.lemma import lemma, rxlemma, P, give_up
 from vfy.lemmas.common import S, cp_md, all_ok, all_in, ALPH14, by, fixed, ast_of
 from mistletoe import block_token as bt, block_tokenizer as btk, token as tokmod
 
@@ -63,6 +63,8 @@ def q1_quote(c1: int, c2: int, c3: int, start: int) -> bool:
     if not bt.Quote.start(lines[0]):
         return False
     cap, fw, tok = _record(bt.Quote, lines, start)
+    if len(cap) == 0:
+        give_up('tokenize_block was not called by Quote.read / Quote.__init__')
     if len(cap) != 1:
         return False
     buf, sl = cap[0]
@@ -95,6 +97,8 @@ def q2_list(c1: int, c2: int, c3: int, pad: int, start: int) -> bool:
     if not bt.List.start(lines[0]):
         return False
     cap, fw, tok = _record(bt.List, lines, start)
+    if len(cap) == 0:
+        give_up('tokenize_block was not called by List.read / List.__init__')
     if len(cap) != 1 or len(tok.children) != 1:
         return False
     buf, sl = cap[0]
